@@ -424,7 +424,8 @@ def forms():
     F.append(("ret_reg", [[("r", "R0"), ("r", "M2")]]))
     F.append(("ret_arr", [[("addr", 0)]]))
     F.append(("wait_all", [[("slice", 0, ("k", None), ("k", None)), ("slice", 0, ("r", "R0"), ("k", None)), ("slice", 0, ("k", None), ("r", "R1")),
-                           ("slice", 0, ("r", "R0"), ("r", "R1")), ("slice", 0, ("r", "R1"), ("r", "R0"))]]))
+                           ("slice", 0, ("r", "R0"), ("r", "R1")), ("slice", 0, ("r", "R1"), ("r", "R0")),
+                           ("slice", 0, ("k", None), ("r", "R0")), ("slice", 0, ("r", "R0"), ("k", None))]]))
     F.append(("wait_single", [[("entry", 0, ("k", None))]]))
     return F
 
